@@ -3,7 +3,11 @@
 under /verif/seeded and run its property's check against it (scratch worktree)."""
 import re, subprocess, sys
 from pathlib import Path
-skip = {("C02", "b"), ("C03", "a"), ("C08", "a")}   # superseded by rebased variants b2 / a2 or obsolete
+skip = {("C02", "b"), ("C03", "a"), ("C08", "a")}
+RELATED = {"C01": ["C09", "C10", "C17"], "C02": ["C09"], "C03": ["C10"], "C04": ["C07", "C09", "C10"],
+           "C05": ["C09", "C10", "C17"], "C06": ["C07"], "C07": ["C15", "C06"], "C08": ["C20", "C13"],
+           "C09": ["C12", "C02"], "C10": ["C03"], "C11": ["C02", "C05"], "C12": ["C13"], "C13": ["C12"],
+           "C14": [], "C15": ["C07"], "C16": [], "C17": ["C01"], "C18": ["C06"], "C19": [], "C20": ["C08"]}   # superseded by rebased variants b2 / a2 or obsolete
 for log in sorted(Path("/tmp").glob("vseed-C*-*.log")):
     m = re.match(r"vseed-(C\d+)-(\w+)\.log", log.name)
     pid, var = m.group(1), m.group(2)
@@ -18,7 +22,7 @@ for log in sorted(Path("/tmp").glob("vseed-C*-*.log")):
     if not ok:
         print("NOT CONFIRMED", pid, var, r.group(0), re.findall(r"\d+ (?:passed|failed)[^\n]*", txt)[-1:] )
         continue
-    if (dst / "results.json").exists():
+    if (dst / "results.json").exists() and "--redo" not in sys.argv:
         continue
     subprocess.check_call(["python3", "/verif/tools/import_seed.py", pid, var], stdout=subprocess.DEVNULL)
-    subprocess.call(["python3", "/verif/tools/run_seeded.py", str(dst), pid])
+    subprocess.call(["python3", "/verif/tools/run_seeded.py", str(dst), pid] + RELATED.get(pid, []))
